@@ -318,3 +318,63 @@ func verifC11Steps(steps int) {
 
 func VerifHarness_C11_Steps_2() { verifC11Steps(2) }
 func VerifHarness_C11_Steps_3() { verifC11Steps(3) }
+
+// C11-O6: avg / stdvar / stddev by value.  Members come from a pool of
+// numerically awkward values (fractions whose squares are inexact, large
+// magnitudes with a small spread, negatives); the aggregate must agree with the
+// two-pass reference (mean, then mean squared deviation) within 1e-6 relative,
+// a variance is never negative and a standard deviation of numbers is a number.
+func verifC11Moments(maxN int) {
+	pool := []float64{0.1, 4.35, 1, 2, 3, 1e9 + 1, 1e9 + 2, 1e9 + 3, 1700000001, -2.5, 0}
+	n := 1 + vsymChoice("n", maxN)
+	var vs []float64
+	for i := 0; i < n; i++ {
+		vs = append(vs, pool[vsymChoice("member", len(pool))])
+	}
+	mean := 0.0
+	for _, v := range vs {
+		mean += v
+	}
+	mean /= float64(n)
+	variance := 0.0
+	for _, v := range vs {
+		variance += (v - mean) * (v - mean)
+	}
+	variance /= float64(n)
+	close := func(got, want float64) bool {
+		d := got - want
+		if d < 0 {
+			d = -d
+		}
+		scale := want
+		if scale < 0 {
+			scale = -scale
+		}
+		if scale < 1 {
+			scale = 1
+		}
+		return d <= 1e-6*scale
+	}
+	run := func(op logql.VectorOp) float64 {
+		mk, err := buildAggregator(&logql.VectorAggregationExpr{Op: op})
+		vsymAssert(err == nil, "the operator has an aggregator")
+		agg := mk()
+		agg.Reset()
+		for _, v := range vs {
+			agg.Apply(v)
+		}
+		return agg.Result()
+	}
+	avg := run(logql.VectorOpAvg)
+	vsymAssert(close(avg, mean), "avg is the mean of the members")
+	sv := run(logql.VectorOpStdvar)
+	vsymAssert(sv >= 0, "a variance is never negative")
+	vsymAssert(close(sv, variance), "stdvar is the mean squared deviation of the members")
+	sd := run(logql.VectorOpStddev)
+	vsymAssert(sd == sd && sd >= 0, "a standard deviation of numbers is a number")
+	vsymAssert(close(sd*sd, variance), "stddev is the square root of the variance")
+	vsymReach("C11_moments")
+}
+
+func VerifHarness_C11_Moments_3() { verifC11Moments(3) }
+func VerifHarness_C11_Moments_4() { verifC11Moments(4) }
